@@ -11,4 +11,6 @@ let table : (string * (val0 -> val0)) list = [
   "chk_c08_big", chk_c08_big;
   "chk_c08_ws", chk_c08_ws;
   "chk_c08_resp", chk_c08_resp;
+  "chk_fwd", chk_fwd;
+  "chk_fwd_e2e", chk_fwd_e2e;
 ]
